@@ -188,7 +188,7 @@ def runProgram (line : String) : List String :=
         let postTags : List String :=
           if ps'.ds.size > ps.ds.size then
             match ps'.ds[ps.ds.size]? with
-            | some d => (if Excl_shortStrides d then ["F24"] else []) ++ (if Excl_contigFlagWrong d then ["F27"] else [])
+            | some d => (if Excl_shortStrides d then ["F24"] else [])
             | none => []
           else match target with
             | some id => (match ps'.ds[id]? with
